@@ -50,7 +50,7 @@ ASSUMPTIONS = [
     "branch is non-empty",
 ]
 REQUIRED = ["documents_converted", "rows_compared", "nested_splits", "empty_first_alt",
-            "empty_later_alt", "points_after_split", "with_comments", "with_colours",
+            "empty_later_alt", "empty_split", "points_after_split", "with_comments", "with_colours",
             "deep_documents", "long_branches", "prefixes_tried", "prefixes_rejected",
             "corruptions_tried", "corruptions_rejected", "entry_from_stream", "entry_convert",
             "entry_call", "comment_invariance_checked", "tap_parser_raise"]
@@ -96,7 +96,7 @@ def gen_model(seed, shape="generic"):
         if npts > 0 and depth > 0 and rng.random() < p_split:
             nalt = int(rng.integers(1, max_alts + 1))
             empties = [bool(rng.random() < 0.25) for _ in range(nalt)]
-            if all(empties):
+            if all(empties) and rng.random() < 0.7:  # '( )' / '( | )' stay possible, rarely
                 empties[int(rng.integers(0, nalt))] = False
             alts = [branch(depth - 1, allow_empty=False, max_pts=max_pts, p_split=p_split,
                            max_alts=max_alts) if not e else [] for e in empties]
@@ -196,6 +196,8 @@ def features(model):
                 seen_split = True
                 if d > 0:
                     f.add("nested_splits")
+                if not any(it[1]):
+                    f.add("empty_split")
                 for i, alt in enumerate(it[1]):
                     if not alt:
                         f.add("empty_first_alt" if i == 0 else "empty_later_alt")
